@@ -329,6 +329,7 @@ struct Obs : Observer {
             c.fail("C11.history_dependent_solve", "k%d.n%d saw %d refused call(s)%s; its solve returns %d (errno %d: %s) while a clone with the same successful history returns %d (errno %d: %s)", ki, ni, N.refused, N.failed_solve ? " and a failed solve" : "", r1, e1, ascii(l1).c_str(), r2, e2, ascii(l2).c_str());
         if (r1 != 0) { c.label("clone:both-solves-fail"); return; }
         c.label("clone:both-solves-succeed");
+        x.mark_solved(K, N);          // this solve wrote the unknown parameters of the original back too
         // solved unknown parameters agree
         for (int pidx : N.registered) {
             const ParamRec &q = K.params[pidx];
